@@ -10,6 +10,7 @@ mod entropy;
 mod faults;
 mod guard;
 mod isolate;
+mod pq;
 mod props;
 mod reference;
 mod report;
